@@ -407,6 +407,17 @@ def model_check(run):
     return crash_classes
 
 
+def tlaps_proof(run):
+    """spec/SaveProof.tla: the TLA+ proof system checks that C08_OldOrNew is inductive for the atomic protocol for
+    ANY number of files and blob length (TLC above covers 1 and 3 files, BlobLen 2)."""
+    ok, n, tail = tlc.prove("SaveProof", ["Save"])
+    if not ok:
+        run.machinery_error("TLAPS: SaveProof.tla is not proved: " + tail)
+        return
+    run.cov["tlaps"] = {"module": "SaveProof", "theorem": "Spec => []C08_OldOrNew (atomic protocol, any NFiles, any BlobLen)",
+                        "obligations_proved": n}
+
+
 def validate_traces(run, traces, atomic):
     if not traces:
         return []
@@ -446,10 +457,13 @@ def check_C08(tier):
                        "(scenario, event) pairs")
     run.assumptions += ["process crashes only (no power loss / fsync semantics)",
                         "Save.tla model-checked by TLC for atomic and in-place protocols with 1 and 3 files; each "
-                        "scenario's real file-operation sequence is validated against Save.tla by TLC",
+                        "scenario's real file-operation sequence is validated against Save.tla by TLC; spec/SaveProof.tla: TLAPS proof "
+                        "that the atomic protocol keeps every file old-or-new in every reachable state for any number of "
+                        "files and blob length",
                         "crash injection through wrappers of builtins.open / file.write / close / os.replace / "
                         "json.dumps and sys.settrace line events inside a forked child"]
     crash_classes = model_check(run)
+    tlaps_proof(run)
     base = env.scratch_dir()
     scs = scenarios()
     jobs = [(sc, base, False) for sc in scs]
